@@ -240,6 +240,11 @@ func (p *crashProp) Run(rc *RunCtx, sc *Scenario) *RunInfo {
 		evals++
 		info.Steps += resk.Steps
 		info.Faults["crash"]++
+		for k2, c2 := range simos.Snapshot().Fired {
+			if strings.HasPrefix(k2, "crash-before-") {
+				info.Probes[k2] += c2
+			}
+		}
 		if verr != "" || resk.Outcome != simrt.OK {
 			info.V = violation("harness", "", "crash run k=%d did not complete: %s %s", k, resk.Outcome, verr)
 			return info
